@@ -173,10 +173,15 @@ def run(chk):
     chk.configs = cfgs
     chk.rule("LOOP", "no member or outer local is written while offsetting one path/group and read while offsetting the next before re-initialisation")
     chk.rule("DELTA.abs-only", "outside the EndType::Polygon branch, delta is only read as abs(delta)")
+    chk.rule("ZERASE", "the USINGZ copies of the offset code equal the plain code after erasing Z-only constructs")
     chk.rule("GROUP.strip-closed", "Group::Group strips a closing vertex (last == first) exactly for EndType::Polygon and EndType::Joined - for "
              "Butt / Square / Round ends it is the end point of the last segment")
     chk.rule("CAP.table", "start and end cap: Butt->DoBevel(i,i), Round->DoRound(i,i,PI), Square->DoSquare(i,i)")
     worlds = [{"deltaCallback64_": False}, {"deltaCallback64_": True}]
+    from ..engines import e6_siblings as e6
+    nz = e6.rule_usingz(AstDB("base"), AstDB("z"), chk, only=lambda fn: (fn.file or "").endswith(("clipper.offset.cpp", "clipper.offset.h")))
+    if nz < 20:
+        raise AnalysisBroken("ZERASE: only %d functions of clipper.offset.* paired between the plain and the USINGZ build" % nz)
     for cfg in cfgs:
         db = AstDB(cfg)
         eng = e2.E2(db, chk, cfg, ["ClipperOffset"])
